@@ -88,8 +88,9 @@ def main():
         shutil.rmtree(scratch, ignore_errors=True)
     outdir = os.path.join(VERIF, "seeded", name)
     os.makedirs(outdir, exist_ok=True)
-    shutil.copy(patch, os.path.join(outdir, "patch.diff"))
-    shutil.copy(demo, os.path.join(outdir, "demo.py"))
+    for src, dst in ((patch, os.path.join(outdir, "patch.diff")), (demo, os.path.join(outdir, "demo.py"))):
+        if os.path.abspath(src) != os.path.abspath(dst):
+            shutil.copy(src, dst)
     with open(os.path.join(outdir, "meta.json"), "w") as f:
         json.dump(meta, f, indent=1)
     print(json.dumps({k: meta[k] for k in ("name", "confirmed", "detected")}, indent=None), "caught_by:", {k: [x["rule"] for x in v] if k != "ANALYSIS-ERROR" else v for k, v in meta.get("caught_by", {}).items()})
